@@ -192,6 +192,8 @@ def _run_chunk(arg):
         else:
             agg["o"][o] = agg["o"].get(o, 0) + r["n"]
         for v in r["v"]:
+            if v.get("case") is not None and v["case"] is not case and v["case"] != case:
+                v["bulk"] = case          # the single case was split out of a bulk case: keep the originating case too
             v.setdefault("case", case)
             v["idx"] = idx
             agg["v"].append(v)
@@ -367,10 +369,15 @@ def finish(ctx, module, coverage_extra):
             def reproduces(c):
                 return all(key in [x["key"] for x in run_replay(module, c)] for _ in range(2))
             if not reproduces(first["case"]):
-                seq = {"__seq__": list(first.get("prefix") or []) + [first["case"]]}
-                if first.get("prefix") and reproduces(seq):
-                    first["case"] = seq
-                    first["msg"] += " [only after the %d preceding cases of the same process: state is carried between calls]" % len(seq["__seq__"][:-1])
+                pre = list(first.get("prefix") or [])
+                candidates = [{"__seq__": pre + [first["case"]]}] if pre else []
+                if first.get("bulk") is not None:
+                    candidates += [first["bulk"], {"__seq__": pre + [first["bulk"]]}]
+                for cand in candidates:
+                    if reproduces(cand):
+                        first["case"] = cand
+                        first["msg"] += " [reproduces only as part of the sequence of cases that preceded it in its process: state is carried between calls]"
+                        break
                 else:
                     raise HarnessError("violation %s did not reproduce on replay of %r" % (key, first["case"]))
         rec = {"property": ctx.prop, "key": key, "tier": ctx.tier, "seed": ctx.seed,
